@@ -430,6 +430,11 @@ func (c Cap) IntersectsCell(cell Cell) bool {
 	return c.intersects(cell, vertices)
 }
 
+// capEdgeDotError is the allowance of the edge rejection test of intersects:
+// 16 * dblEpsilon (2^-48), above the rounding error of the test relative to
+// the dot product of the cap center and the edge normal (at most 23 * 2^-53).
+const capEdgeDotError = 16 * dblEpsilon
+
 // intersects reports whether the cap intersects any point of the cell excluding
 // its vertices (which are assumed to already have been checked).
 func (c Cap) intersects(cell Cell, vertices [4]Point) bool {
@@ -467,7 +472,20 @@ func (c Cap) intersects(cell Cell, vertices [4]Point) bool {
 		}
 
 		// The Norm2() factor is necessary because "edge" is not normalized.
-		if dot*dot > sin2Angle*edge.Norm2() {
+		//
+		// Both sides of the comparison carry a rounding error of up to about
+		// 12 * dblEpsilon * |dot| (the dot product, Sin2, the products, and the
+		// lengths of the center and of the edge normal, which are unit length
+		// only to within a few dblEpsilon). Near a hemisphere sin2Angle is flat
+		// (1 - x*x at x radians from 90 degrees), so an error of that size
+		// decides the test for caps that reach up to sqrt(dblEpsilon) = 1.5e-8
+		// radians across the edge, and such a cap must not be rejected here.
+		// Therefore only return false when the comparison is decided by more
+		// than the rounding error (dot <= 0 here, so the left side is
+		// dot*dot - capEdgeDotError*|dot|). For a cap that is not within 1e-7
+		// radians of a hemisphere this moves the threshold by less than 1e-14
+		// radians.
+		if dot*(dot+capEdgeDotError) > sin2Angle*edge.Norm2() {
 			return false
 		}
 
